@@ -95,4 +95,84 @@ def ipscOp (op : String) (args : List String) : Option String :=
     some (showBytes (halfByte h n))
   | _, _ => none
 
+/-! ### histories: every decoded object is kept (`Heap`); `h.read` shows its current content -/
+
+def fieldByName : String → Option Field
+  | "call_type" => some .callType
+  | "frame_type" => some .frameType
+  | "packet_type" => some .packetType
+  | "slot_type" => some .slotType
+  | "timeslot" => some .timeslot
+  | "sequence_number" => some .seq
+  | "color_code" => some .cc
+  | "destination_radio_id" => some .dst
+  | "source_radio_id" => some .src
+  | "payload" => some .payload
+  | "payload_pad" => some .pad
+  | "first_header" => some .firstHeader
+  | "second_header" => some .secondHeader
+  | "reserved_3" => some .reserved3
+  | "reserved_7a" => some .reserved7a
+  | "reserved_2a" => some .reserved2a
+  | "reserved_2b" => some .reserved2b
+  | "reserved_1" => some .reserved1
+  | _ => none
+
+def fieldIsNat : Field → Bool
+  | .callType | .frameType | .packetType | .slotType | .timeslot | .seq | .cc | .dst | .src => true
+  | _ => false
+
+/-- a decoder step: the answer names the new handle (or the error) and shows what was handed out -/
+def decStep (h : Heap) (op : HOp) (res : Except Ipsc.Err String) : Heap × String :=
+  match res with
+  | .error e => (op.run h, showErr e)
+  | .ok s => (op.run h, toString h.size ++ " " ++ s)
+
+def ipscStep (h : Heap) (op : String) (args : List String) : Heap × String :=
+  let bad := (h, "ERR bad-op " ++ op)
+  match op, args with
+  | "h.reset", [] => (Heap.empty, "ok")
+  | "h.raw", [d] =>
+    match hexToBytes d with
+    | some d => decStep h (.decRaw d) ((fromIpscBytes d).map showObj)
+    | none => bad
+  | "h.kai", [d] =>
+    match hexToBytes d with
+    | some d => decStep h (.decKai d) ((kaitaiPath d).map showObj)
+    | none => bad
+  | "h.braw", [d] =>
+    match hexToBytes d with
+    | some d => decStep h (.burstRaw d) ((burstRaw d).map showView)
+    | none => bad
+  | "h.bkai", [d] =>
+    match hexToBytes d with
+    | some d => decStep h (.burstKai d) ((burstKaitai d).map showView)
+    | none => bad
+  | "h.set", [r, f, v] =>
+    match r.toNat?, fieldByName f with
+    | some r, some f =>
+      let val : Option Val := if fieldIsNat f then v.toNat?.map Val.nat else (hexToBytes v).map Val.bytes
+      match val with
+      | some val => if r < h.size then ((HOp.set r f val).run h, "ok") else (h, "ERR ref")
+      | none => bad
+    | _, _ => bad
+  | "h.read", [r] =>
+    match r.toNat? with
+    | some r =>
+      match h.read r with
+      | some x => (h, showObj x)
+      | none => (h, "ERR ref")
+    | none => bad
+  | "h.ser", [r] =>
+    match r.toNat? with
+    | some r =>
+      match h.read r with
+      | some x => ((HOp.ser r).run h, showBytes (asIpscBytes x))
+      | none => (h, "ERR ref")
+    | none => bad
+  | _, _ =>
+    match ipscOp op args with
+    | some out => (h, out)
+    | none => bad
+
 end Dmr.Driver
